@@ -781,7 +781,9 @@ def run(chk, cases):
     import time
     ss_items, ss_meta, fo_items, fo_meta, rf_items, rf_meta = [], [], [], [], [], []
     extra = {"fo2": ([], []), "ftT": ([], []), "ftg": ([], [])}
+    tk = {}
     for c in cases:
+        t1 = time.time()
         try:
             if c["kind"] == "ss":
                 run_ss(chk, c, ss_items, ss_meta)
@@ -802,6 +804,9 @@ def run(chk, cases):
             chk.violation("%s:exception" % c["kind"], "case raised %r: %s" % (e, traceback.format_exc()[-500:]), "monitor",
                           {k: v for k, v in c.items() if not k.startswith("_")})
             chk.case({k: v for k, v in c.items() if not k.startswith("_")}, False)
+        finally:
+            tk[c["kind"]] = tk.get(c["kind"], 0.0) + time.time() - t1
+    chk.notes.append("implementation time per kind (s): %s" % {k: round(v, 1) for k, v in tk.items()})
     shards, index = [], []
     imp = "From QV Require Import Base.Alg Base.Util Model.C06.\n"
     CH = 150
